@@ -1072,6 +1072,19 @@ func (p *prover) condFacts(s *factSet, cond ssa.Value, truth bool, seen map[term
 		}
 		return
 	}
+	// strings.HasPrefix(x, p) / HasSuffix / Contains and the bytes counterparts: when true, len(p) <= len(x)
+	if cl, ok := cond.(*ssa.Call); ok && truth {
+		if f := cl.Common().StaticCallee(); f != nil && len(cl.Common().Args) == 2 {
+			switch extName(f) {
+			case "strings.HasPrefix", "strings.HasSuffix", "strings.Contains", "bytes.HasPrefix", "bytes.HasSuffix", "bytes.Contains":
+				x, sub := lenT(cl.Common().Args[0]), lenT(cl.Common().Args[1])
+				s.le(sub, x, 0)
+				p.defs(s, x, seen, 0)
+				p.defs(s, sub, seen, 0)
+			}
+		}
+		return
+	}
 	bo, ok := cond.(*ssa.BinOp)
 	if !ok {
 		return
